@@ -313,6 +313,8 @@ def gen_cargo_toml(rnd):
             elif form < 0.6:
                 extra_before = rnd.choice(['', 'features' + eq + '["derive"], ', 'default-features' + eq + 'false, '])
                 extra_after = rnd.choice(['', ', features' + eq + '["full"]', ', optional' + eq + 'true'])
+                if 'features' in extra_before and 'features' in extra_after:
+                    extra_after = ', optional' + eq + 'true'          # a key twice in one table is not TOML
                 rename = rnd.random() < 0.15
                 real = rnd.choice(CRATES) if rename else name
                 out.w(ind + key + eq + '{ ' + extra_before + 'version' + eq + q)
